@@ -18,7 +18,7 @@ func (e *Engine) newUnit(pkg *packages.Package, name, key string, ct *Contract) 
 	u := &Unit{eng: e, pkg: pkg, name: name, key: key, ct: ct, d: newDecls(), obls: map[string]*Obl{},
 		lits: map[string]*ast.FuncLit{}, notes: map[string]bool{}, trusted: map[string]bool{}, usedContracts: map[string]bool{},
 		curLoopIdx: map[int]string{}, curLoopSeen: map[int]string{}, loopExitIdx: map[int]string{}, loopsSeen: map[int]bool{},
-		ptrs: map[string]ast.Expr{}, pathCap: maxPaths}
+		ptrs: map[string]ast.Expr{}, pathCap: maxPaths, callAssertSeen: map[int]bool{}, sentinels: map[string]bool{}}
 	if pkg != nil {
 		u.info = pkg.TypesInfo
 	}
@@ -108,6 +108,11 @@ func (u *Unit) bindParam(st *State, names map[string]*Val, id *ast.Ident) {
 	v := u.freshVal(st, obj.Type(), id.Name)
 	if kindOf(obj.Type()) == kRef {
 		st.assumeFact(app("<=", v.S, st.wm))
+	}
+	if (kindOf(obj.Type()) == kSlice || kindOf(obj.Type()) == kArray) && kindOf(elemType(obj.Type())) == kRef && v.Arr != "" {
+		bvCounter++
+		i := fmt.Sprintf("pa!%d", bvCounter)
+		st.assumeFact(fmt.Sprintf("(forall ((%s Int)) (! (<= (select %s %s) %s) :pattern ((select %s %s))))", i, v.Arr, i, st.wm, v.Arr, i))
 	}
 	st.vars[obj] = v
 	names[id.Name] = v
@@ -217,6 +222,11 @@ func (u *Unit) run() {
 	for n := range u.ct.Loops {
 		if !u.loopsSeen[n] {
 			u.stale(fmt.Sprintf("loop%d.contract-stale", n), fmt.Sprintf("loop %d named in the contract was not found", n))
+		}
+	}
+	for _, ca := range u.ct.CallAsserts {
+		if !u.callAssertSeen[ca.N] {
+			u.stale(fmt.Sprintf("at-call(%s).contract-stale", ca.Text), "call site named in the contract was not found: "+ca.Text)
 		}
 	}
 	if u.tooManyPaths {
@@ -580,6 +590,16 @@ func (o *Obl) query() string {
 	for _, t := range tags {
 		b.WriteString("(assert (> " + t + " 0))\n")
 	}
+	var sents []string
+	for name := range o.D.set {
+		if strings.HasPrefix(strings.Trim(name, "|"), "sentinel!") {
+			sents = append(sents, name)
+		}
+	}
+	sort.Strings(sents)
+	if len(sents) > 1 {
+		b.WriteString("(assert (distinct " + strings.Join(sents, " ") + "))\n")
+	}
 	var dis []string
 	for _, in := range o.Insts {
 		if o.Cover {
@@ -587,6 +607,24 @@ func (o *Obl) query() string {
 		} else {
 			dis = append(dis, tAnd(in.Hyp, tNot(in.Goal)))
 		}
+	}
+	b.WriteString("(assert " + tOr(dis...) + ")\n")
+	return b.String()
+}
+
+// relaxedQuery drops quantified hypotheses (used only to obtain candidate inputs for replay).
+func (o *Obl) relaxedQuery() string {
+	var b strings.Builder
+	b.WriteString(o.D.text())
+	var dis []string
+	for _, in := range o.Insts {
+		var keep []string
+		for _, h := range in.HypList {
+			if !strings.Contains(h, "(forall ") && !strings.Contains(h, "(exists ") {
+				keep = append(keep, h)
+			}
+		}
+		dis = append(dis, tAnd(append(keep, tNot(in.Goal))...))
 	}
 	b.WriteString("(assert " + tOr(dis...) + ")\n")
 	return b.String()
